@@ -76,8 +76,10 @@ def judge_query(rl, sql, order):
     if not compare(opt["rows"], ref["rows"], order):
         fired = (opt.get("raw", {}).get("rules") or {})
         culprits = bisect_rules(rl, sql, ref["rows"], order, fired)
-        sig = "rule:" + "+".join(culprits) if culprits else "optimizer:unattributed"
-        if len(culprits) > 3:
+        # commutativity / associativity rules only expose the match of the real culprit
+        core = [c for c in culprits if not c.endswith(("-comm", "-assoc"))] or culprits
+        sig = "rule:" + "+".join(core) if core else "optimizer:unattributed"
+        if len(core) > 3:
             sig = "optimizer:many-rules"
         return dict(signature=sig, what=f"{sql[:220]}: optimized {opt['rows'][:4]} ({len(opt['rows'])} rows) vs unoptimized {ref['rows'][:4]} ({len(ref['rows'])} rows); restored by denying {culprits}", sql=sql), 1, 0, opt
     return None, 1, 0, opt
